@@ -5,7 +5,7 @@ P=$1; shift
 cd /repo || exit 2
 if ! git diff --quiet; then echo "/repo is dirty"; exit 2; fi
 if ! git apply "$P" 2>/dev/null; then
-  if ! git apply -3 "$P" 2>/dev/null; then echo "patch does not apply: $P"; git checkout -- . ; exit 3; fi
+  if ! git apply -3 "$P" 2>/dev/null; then echo "patch does not apply: $P"; git reset -q --hard HEAD ; exit 3; fi
   git reset -q
 fi
 rc=0
